@@ -299,9 +299,12 @@ def run(ck):
             ck.cov["black_box_cluster"] = "NOT RUN: the cluster accepted no write (see NOTES.md): %s" % history[:5]
             return
         model_acceptance(ck, history, T0)
+        conv = [((e[0], (e[1] - T0) // 1000000000) + tuple(e[2:])) if e[0] in ("ack", "noack") else
+                (("read", e[1], {(k - T0) // 1000000000: v for k, v in e[2].items()}, e[3]) if e[0] == "read" else e)
+                for e in history if e[0] in ("ack", "noack", "read", "kill", "restart", "pause", "resume")]
         if not ok:
             ck.violation({"kind": "direct-oracle-cluster", "what": "acknowledged point not readable with its latest value at: %s" % fails,
-                          "history": history})
+                          "history": [e for e in history if e[0] != "read"], "converted_history": conv})
     finally:
         for p in reversed(procs):
             p.sig(signal.SIGCONT)
@@ -325,6 +328,18 @@ def model_acceptance(ck, history, T0):
             h.append(("read", e[1], {(k - T0) // 1000000000: v for k, v in e[2].items()}, e[3]))
         elif e[0] in ("kill", "restart", "pause", "resume"):
             h.append(e)
+    return accept_converted(ck, h)
+
+
+def accept_converted(ck, h):
+    import importlib.util
+    import re
+    p = os.path.join(os.path.dirname(os.path.abspath(__file__)), "accept.py")
+    spec = importlib.util.spec_from_file_location("c05_accept", p)
+    acc = importlib.util.module_from_spec(spec)
+    spec.loader.exec_module(acc)
+    h = [tuple(e) if not isinstance(e, tuple) else e for e in h]
+    h = [(e[0], e[1], {int(k): v for k, v in e[2].items()}, e[3]) if e[0] == "read" else e for e in h]
     case, syn = acc.coq_case(h)
     txt = ("From Coq Require Import List Arith NArith ZArith Bool. From OG Require Import C05.Model C05.Corr.\n"
            "Import ListNotations.\nDefinition c : case := %s.\n"
@@ -345,4 +360,5 @@ def model_acceptance(ck, history, T0):
             ck.nofail_detail = {"kind": "cluster-history-not-accepted", "history": h, "witness": syn.w, "info": info}
     if isinstance(ck.cov.get("black_box_cluster"), dict):
         ck.cov["black_box_cluster"]["model_acceptance"] = info
-    ck.cov["traces_validated_against_impl"] = ck.cov.get("traces_validated_against_impl", 0) + (1 if info.get("accepted") else 0)
+    ck.c05_history_accepted = bool(info.get("accepted"))
+    return info
